@@ -200,6 +200,7 @@ def run(original_args) -> int:
         codemods_to_run,
     )
 
+    report_status = 0
     elapsed = datetime.datetime.now() - start
     elapsed_ms = int(elapsed.total_seconds() * 1000)
 
@@ -210,7 +211,7 @@ def run(original_args) -> int:
             original_args,
             context.compile_results(codemods_to_run),
         )
-        codetf.write_report(argv.output)
+        report_status = codetf.write_report(argv.output)
 
     log_report(
         context,
@@ -218,7 +219,8 @@ def run(original_args) -> int:
         elapsed_ms,
         [] if not codemods_to_run else context.files_to_analyze,
     )
-    return 0
+    # Failing to write the requested report is an error (status 2 according to spec)
+    return 2 if argv.output and report_status == 2 else 0
 
 
 def main():
